@@ -451,6 +451,20 @@ def install(eng):
             raise UnknownCallee(call.norm, "opaque closure")
         return r
 
+    @on(r"^Result::unwrap_or_else$|^Option::unwrap_or_else$")
+    def _unwrap_or_else(call):
+        a = call.argv[0]
+        is_opt = call.norm.startswith("Option")
+        k = discr_choice(call, a, ("unwrap_or_else", call.fr.bb))
+        good = 1 if is_opt else 0
+        if k == good:
+            return eng.force(eng.field_cell(a, ("Some" if is_opt else "Ok", 0), None, "payload"))
+        args = [] if is_opt else [eng.force(eng.field_cell(a, ("Err", 0), None, "err"))]
+        r = call_closure(call, call.argv[1], args)
+        if r is None:
+            raise UnknownCallee(call.norm, "opaque closure")
+        return r
+
     @on(r"^Result::map_err$|^Result::map$|^Option::map$")
     def _map(call):
         a = call.argv[0]
